@@ -38,7 +38,12 @@ def inherit(tokeniser: Tokeniser) -> list[str]:
         or tokeniser.tokens[-1] != ']'
     ):
         raise ValueError('invalid inherit list\n  Format: inherit <template> or inherit [ template1, template2, ... ]')
-    return [str(t) for t in tokeniser.tokens[2:-1]]
+    names = [str(t) for t in tokeniser.tokens[2:-1]]
+    # the list was read from tokeniser.tokens: take the words off the tokeniser too (Section.parse refuses a statement
+    # with words left unread, and `inherit [ a b ]` was refused with "unexpected '['")
+    while tokeniser():
+        pass
+    return names
 
 
 def hostname(tokeniser: Tokeniser) -> str:
